@@ -2,6 +2,7 @@
 from sim import history
 
 PROP = 'C02'
+TECHNIQUE = 'deterministic simulation: seeded multi-user command histories (incl. overlapping commands) under seeded schedules; independent format reader + restore of every remaining snapshot'
 LEVEL = 'exploration'
 RULE = ('one case = a seeded history (3..12 commands) of snapshot / delete / clean / restore / listings by 1..3 users of one '
         'repository (unencrypted, same family via shared/clone keys, independent keys) over overlapping file sets, '
